@@ -620,6 +620,8 @@ class Taint:
                 return self.const_of(b, ds[0][1]['rv']['op'], depth + 1)
         return None
 
+    _dest_roles = {}
+
     def fixed_window(self, b):
         """for a closure applied to the items of `windows(n)` / `chunks_exact(n)` with a constant n: that n (else 0)"""
         if b.raw['kind'] != 'Closure' or not b.raw.get('parent'):
@@ -654,21 +656,58 @@ class Taint:
                 pl = st['pl']
                 base = b.base_of_place(pl)
                 if base[1]:
-                    return self.place_desc(b, pl)
+                    plain = self.place_desc(b, pl)
+                    self._roles = True
+                    try:
+                        self._dest_roles[plain] = self.place_desc(b, pl)
+                    finally:
+                        self._roles = False
+                    return plain
                 l = base[0]
                 if b.locals[l]['name'] and b.locals[l].get('user') and len(b.defs().get(l, [])) > 1:
                     return 'var'
                 return 'tmp'
         return 'tmp'
 
+    def module_of(self, b):
+        q = b.q
+        if q.startswith('<'):
+            q = q[1:].split(' as ')[0]
+        segs = []
+        for sgm in q.split('::'):
+            if sgm and (sgm[0].islower() or sgm[0] == '_') and not sgm.startswith('{'):
+                segs.append(sgm)
+            else:
+                break
+        # a free function's own name is lower case too: drop it when the path names a function, not a module
+        if not b.q.startswith('<') and len(segs) == len([x for x in b.q.split('::') if not x.startswith('{')]):
+            segs = segs[:-1]
+        return '::'.join(segs)
+
     def site(self, b, kind, ops, loc, level, guarded, guards, dest=None):
         desc = self.desc(b, ops)
+        self._roles = True
+        try:
+            rdesc = self.desc(b, ops)
+            rdest = self.result_dest_cached(b, dest)
+        finally:
+            self._roles = False
         if dest:
             desc = desc + ['->' + dest]
+            rdesc = rdesc + ['->' + rdest]
         return {'rule': 'R-UNTRUSTED', 'function': b.q, 'kind': kind, 'operands': desc, 'at': loc, 'level': level,
                 'verdict': 'guarded' if guarded else 'UNGUARDED',
                 'guard_at': [b.blocks[g]['term']['loc'] if isinstance(g, int) and g >= 0 else ('contract' if g == -1 else None) for g in guards],
-                'key': 'R-UNTRUSTED|%s|%s|%s' % (b.q, kind, ','.join(desc))}
+                'key': 'R-UNTRUSTED|%s|%s|%s' % (b.q, kind, ','.join(desc)),
+                'rkey': 'R-UNTRUSTED|%s|%s|%s' % (self.module_of(b), kind, ','.join(rdesc))}
+
+    def result_dest_cached(self, b, dest):
+        """role form of a destination description (a field path rendered by type tags)"""
+        if not dest or dest in ('tmp', 'var'):
+            return dest or ''
+        parts = dest.split('.')
+        # the textual dest was produced by place_desc without roles: re-render the trailing field names we can resolve
+        return '.'.join([parts[0]] + ['#' if i else p for i, p in enumerate(parts[1:])]) if False else self._dest_roles.get(dest, dest)
 
     def range_guard(self, b, local, block):
         for d in b.defs().get(local, []):
@@ -696,13 +735,40 @@ class Taint:
         # a parameter of an inlined helper is what was passed for it
         ds = b.defs().get(l, [])
         if len(ds) != 1 or depth > 5:
+            # a re-borrow of the receiver that is assigned on several paths is still the receiver
+            ty = b.lty(l)
+            n = 0
+            while ty.get('k') in ('ref', 'rawptr') and ty.get('args') and n < 4:
+                ty = b.ty(ty['args'][0])
+                n += 1
+            if n and ty.get('adt') and ty['adt'] in self.f.adts and ty['adt'] in b.q:
+                return 'self'
             return 'var'
         return self.def_desc(b, l, depth) or 'var'
+
+    def field_tag(self, adt, name):
+        """a private field of a crate-local struct by what it is (its type), so that renaming it does not change a reviewed key"""
+        a = self.f.adts.get(adt) if adt else None
+        if not a or not a['variants']:
+            return str(name)
+        crate = adt.split('::')[0]
+        for v in a['variants']:
+            for fd in v['fields']:
+                if fd['n'] == name:
+                    if 'Public' in str(fd.get('vis')) or str(fd.get('vis')).startswith('Restricted') is False and 'pub' in str(fd.get('vis')).lower():
+                        return str(name)
+                    ty = self.f.types.get((crate, fd['ty']), {})
+                    tag = (ty.get('adt') or ty.get('s') or ty.get('k') or '?').split('::')[-1].split('<')[0]
+                    return '#' + tag
+        return str(name)
 
     def place_desc(self, b, pl, depth=0):
         base = b.base_of_place(pl)
         s = self.local_desc(b, base[0], depth + 1)
-        s += ''.join('.' + str(x[1]) for x in base[1])
+        if getattr(self, '_roles', False):
+            s += ''.join('.' + self.field_tag(x[0], x[1]) for x in base[1])
+        else:
+            s += ''.join('.' + str(x[1]) for x in base[1])
         if any(p['k'] in ('index', 'constindex', 'subslice') for p in pl['p']):
             s += '[]'
         return s
@@ -723,7 +789,10 @@ class Taint:
             inner = ''
             if d[1]['args']:
                 inner = self.describe(b, d[1]['args'][0], depth + 1)
-            return callee_q(d[1]).split('::')[-1] + '(' + inner + ')'
+            name = callee_q(d[1]).split('::')[-1]
+            if name in ('deref', 'deref_mut', 'as_ref', 'as_mut', 'get_mut', 'get_ref', 'borrow', 'borrow_mut', 'new_unchecked', 'into_ref') and inner:
+                return inner            # the same object seen through a smart pointer / Pin
+            return name + '(' + inner + ')'
         if d[0] != 'assign':
             return ''
         rv = d[1]['rv']
